@@ -24,6 +24,8 @@ def std(pkg, qprop, tprop, fuzz=None, grid_shards_thorough=1, level="exploration
 
 
 PROPS = {
+    "C16": std("c16", 5000, 50000, fuzz=45),
+    "C17": std("c17", 5000, 50000, fuzz=45),
     "C09": std("c09", 20000, 200000, fuzz=45),
     "C08": std("c08", 10000, 100000, fuzz=30),
     "C15": std("c15", 3000, 30000, extra=dict(engine="rapid stateful (model-based histories)")),
